@@ -17,6 +17,7 @@ import (
 	"database/sql"
 	"encoding/binary"
 	"encoding/hex"
+	"encoding/json"
 	"errors"
 	"fmt"
 	"io"
@@ -599,6 +600,26 @@ func (r *runner) judge(si int, a *applied, res readResult, want []byte, tampered
 				return true, true
 			}
 		}
+		// KF-C17-4: a shard with trailing bytes (>= one frame header) after its last frame makes the
+		// read fail with "insufficient shards" after every original byte was delivered
+		if nF <= P && res.err != nil && bytes.Equal(res.data, want) && r.env.Known("c17.trailingBytesFailRead") {
+			und := make([][]byte, len(tampered))
+			hasTrail := false
+			for i := range tampered {
+				und[i] = tampered[i]
+			}
+			for i, ks := range a.kinds {
+				if len(ks) == 1 && (ks[0] == "junk" || ks[0] == "dupframe") {
+					und[i] = orig[i]
+					hasTrail = true
+				}
+			}
+			if hasTrail && satisfied(und, nF) {
+				o.KnownHits = append(o.KnownHits, "KF-C17-4")
+				o.Class(phase + ":known-trailing-bytes")
+				return true, true
+			}
+		}
 		// KF-C17-3: all shards that are still readable end at the same frame edge -> clean EOF
 		if nF > P && res.err == nil && r.env.Known("c17.commonTruncationCleanEOF") {
 			onlyEnd := true
@@ -796,10 +817,14 @@ func run(env *ev.Env, c Case) (o ev.Outcome) {
 		if a2.faulty() == 0 {
 			continue
 		}
+		orig2 := append([][]byte(nil), after...)
 		for i := range stillFaulty {
 			a2.kinds[i] = a.kinds[i]
 			a2.labels = append(a2.labels, a.kinds[i]...)
+			orig2[i] = orig[i]
 		}
+		a2.hasStale = a.hasStale
+		a2.dbFlips = a.dbFlips
 		tampered2 := r.io.all(id)
 		res2 := r.read(id, "nil", 0)
 		o.Class("second:applied")
@@ -812,7 +837,7 @@ func run(env *ev.Env, c Case) (o ev.Outcome) {
 		if reliesOnHealed && len(a.missing) > 0 && a2.faulty() == c.P {
 			o.Class("second:forces-use-of-healed-shard")
 		}
-		if ok, _ := r.judge(si, a2, res2, want, tampered2, after, "after-heal"); !ok {
+		if ok, _ := r.judge(si, a2, res2, want, tampered2, orig2, "after-heal"); !ok {
 			return
 		}
 	}
@@ -868,9 +893,6 @@ func genSet(t *rapid.T, d, p int) Set {
 	for i := 0; i < n; i++ {
 		f := genFault(t, total, kinds)
 		f.Shard = perm[i]
-		if f.Kind == "flip" && f.Where == "databytes" && rapid.IntRange(0, 1).Draw(t, "dbLow") == 0 {
-			f.Shard = perm[i]
-		}
 		s.Faults = append(s.Faults, f)
 	}
 	s.Mode = rapid.SampledFrom([]string{"nil", "nil", "commit", "rollback"}).Draw(t, "mode")
@@ -1093,6 +1115,33 @@ func FuzzC17(f *testing.F) {
 	})
 }
 
+// knownOpen reports whether known-findings.json lists an open C17 finding with this matcher
+// (the fuzz target has no ev.Main around it).
+func knownOpen(matcher string) bool {
+	root := os.Getenv("VERIF_ROOT")
+	if root == "" {
+		root = "/verif"
+	}
+	b, err := os.ReadFile(filepath.Join(root, "known-findings.json"))
+	if err != nil {
+		return false
+	}
+	var ff struct {
+		Findings []struct {
+			Property, Status, Matcher string
+		} `json:"findings"`
+	}
+	if json.Unmarshal(b, &ff) != nil {
+		return false
+	}
+	for _, f := range ff.Findings {
+		if f.Property == "C17" && f.Status == "open" && f.Matcher == matcher {
+			return true
+		}
+	}
+	return false
+}
+
 // runRaw is run() for the fuzz target: "rawxor" faults xor one byte at an absolute offset.
 func runRaw(env *ev.Env, c Case) (o ev.Outcome) {
 	dir := env.TempDir()
@@ -1175,7 +1224,7 @@ func runRaw(env *ev.Env, c Case) (o ev.Outcome) {
 				onlyDB = false
 			}
 		}
-		if onlyDB {
+		if onlyDB && knownOpen("c17.frameDataBytesTrusted") {
 			return // known finding KF-C17-1 (frame-header dataBytes trusted)
 		}
 	}
